@@ -171,6 +171,40 @@ impl Part for C13 {
                         }
                     }
                 }
+                // X25519: keys that make a DH fail - the error kind is fixed by the side that fails
+                if c.suite.kem == Kem::X25519 {
+                    for bad in super::c10::small_order_encodings() {
+                        let mut rng = ScriptRng::new(&k.ikm_e);
+                        let o = ops.setup_sender(&m, &bad, &info, &mut rng);
+                        if let Some(e) = no_panic(&mut out, "setup_sender(small-order recipient key)", &o) {
+                            if e != HpkeError::EncapError {
+                                out.fail(format!("setup_sender(small-order recipient key) failed with {:?}; only EncapError is allowed", e));
+                            }
+                        }
+                        let o = ops.setup_receiver(&m, &k.sk_r, &bad, &info);
+                        if let Some(e) = no_panic(&mut out, "setup_receiver(small-order enc)", &o) {
+                            if e != HpkeError::DecapError {
+                                out.fail(format!("setup_receiver(small-order encapsulated key) failed with {:?}; only DecapError is allowed", e));
+                            }
+                        }
+                        if c.mode.has_auth() {
+                            let m2 = ModeSpec { pk_s: bad.clone(), ..m.clone() };
+                            let o = ops.setup_receiver(&m2, &k.sk_r, &k.pk_s, &info);
+                            if let Some(e) = no_panic(&mut out, "setup_receiver(small-order sender identity key)", &o) {
+                                if e != HpkeError::DecapError {
+                                    out.fail(format!("setup_receiver(small-order sender identity key) failed with {:?}; only DecapError is allowed", e));
+                                }
+                            }
+                            let mut rng = ScriptRng::new(&k.ikm_e);
+                            let o = ops.setup_sender(&m2, &bad, &info, &mut rng);
+                            if let Some(e) = no_panic(&mut out, "setup_sender(small-order recipient key, auth)", &o) {
+                                if e != HpkeError::EncapError {
+                                    out.fail(format!("setup_sender(auth, small-order recipient key) failed with {:?}; only EncapError is allowed", e));
+                                }
+                            }
+                        }
+                    }
+                }
                 // arbitrary (valid-format) encapsulated keys: any public key is a possible enc
                 for i in 0..8u64 {
                     let other = keys(c.suite.kem, 13_100 + i, cfg.seed);
